@@ -4,6 +4,7 @@ package checks
 
 import (
 	"bytes"
+	"encoding/json"
 	"fmt"
 	"os"
 	"os/exec"
@@ -357,6 +358,58 @@ func buildC08(tier string) *core.Plan {
 			}
 		}}
 
+	// decoded payloads: a value produced by $decode is the only place where a key spelt like a
+	// directive survives as data below a map; every directive key x every argument (plus
+	// arguments that themselves carry a $repeat / $merge / $output), alone and next to a plain
+	// key, decoded from JSON and YAML text at a map value, at the root and in a list.
+	decArgs := append(append([]any{}, c08Args...), map[string]any{"$repeat": 2, "x": 1}, map[string]any{"$repeat": map[string]any{"i": 2}, "x": 1},
+		map[string]any{"$merge": "b"}, map[string]any{"$output": true, "x": 1}, []any{map[string]any{"$repeat": 2, "x": 1}}, map[string]any{"$encode": "json", "x": 1})
+	type decCase struct {
+		fmtName string
+		payload any
+		place   int
+	}
+	var decCases []decCase
+	for _, k := range c08DirKeys {
+		for _, a := range decArgs {
+			for _, extra := range []bool{false, true} {
+				m := map[string]any{k: core.Clone(a)}
+				if extra {
+					m["x"] = 1
+				}
+				for _, f := range []string{"json", "yaml"} {
+					for place := 0; place < 3; place++ {
+						decCases = append(decCases, decCase{f, m, place})
+					}
+				}
+			}
+		}
+	}
+	decoded := core.Space{Name: "decoded-directive-payloads", N: int64(len(decCases)),
+		Desc: func(i int64) any {
+			return map[string]any{"format": decCases[i].fmtName, "payload": decCases[i].payload, "place": []string{"map value", "document root", "list entry"}[decCases[i].place]}
+		},
+		Run: func(c *core.Ctx, i int64) {
+			dc := decCases[i]
+			text, _ := json.Marshal(dc.payload) // JSON text is YAML text too
+			dec := map[string]any{"$decode": dc.fmtName, "$value": string(text)}
+			var d any
+			switch dc.place {
+			case 0:
+				d = map[string]any{"a": dec, "b": map[string]any{"c": 1}}
+			case 1:
+				d = dec
+			default:
+				d = map[string]any{"a": []any{dec, 1}, "b": 2}
+			}
+			w := fmt.Sprintf("decoded %s place%d: %s", dc.fmtName, dc.place, text)
+			cl, _ := c08Lib(c, w, d, func() ([]byte, error) { return c08EvalLayers([][]any{{d}}) })
+			if cl == "ok" {
+				c.Nontrivial()
+			}
+			c08Lib(c, w+" over lower", d, func() ([]byte, error) { return c08EvalLayers([][]any{{lowers[1]}, {d}}) })
+		}}
+
 	// double injection (the "mutated" documents): thorough only, bases N<=2
 	var inj2 []any
 	if thorough {
@@ -483,18 +536,18 @@ func buildC08(tier string) *core.Plan {
 			c08CLI(c, cliCases[i])
 		}}
 
-	spaces := []core.Space{byteSpace("json"), byteSpace("toml"), structural, fileInj, refGraph, yamlTexts, parentGraphs, cli}
+	spaces := []core.Space{byteSpace("json"), byteSpace("toml"), structural, decoded, fileInj, refGraph, yamlTexts, parentGraphs, cli}
 	if thorough {
 		spaces = append(spaces, double)
 	}
 	return &core.Plan{
 		Spaces: spaces,
 		Rule: "all byte strings up to the length bound over a 14-byte alphabet as .json and .toml files; every single directive injection (18 directive keys x 14 argument kinds, 22 directive strings) into every base tree, alone and in 5 layerings, " +
-			"and through files in 3 formats; all 3-key reference graphs over 50 reference forms; all 512 $parent digraphs over 3 files x entry; hand-written YAML anchor/alias texts. non-trivial = evaluation produced output, or a definite cycle was present",
+			"and through files in 3 formats; all 3-key reference graphs over 50 reference forms; all 512 $parent digraphs over 3 files x entry; hand-written YAML anchor/alias texts; every directive key x argument as a $decode payload (JSON and YAML text; map value, root, list entry). non-trivial = evaluation produced output, or a definite cycle was present",
 		Assumptions: []string{"termination is judged by a deterministic step budget (100M instrumented function/loop entries; the most expensive legitimate case here, a 1000-deep circular reference report, uses about 5M), never by wall clock; a worker that dies (fatal stack overflow, out of memory) is recorded as the failing case and the enumeration continues",
 			"'cycle must be an error' is only asserted for pure cycles of whole-value references between top-level keys (or to the root) and for $parent cycles reachable from the entry file; richer reference shapes are judged on termination only",
 			"decoders inside dependencies (yaml.v3, go-toml, encoding/json) are not instrumented; a hang there falls back to the worker watchdog"},
-		Bounds: map[string]any{"byte_string_len": strLen, "alphabet": string(c08Alphabet), "injection_bases": len(bases), "injected_docs": len(inj), "double_injected_docs": len(inj2), "ref_values": len(rv), "step_budget": c08Budget},
+		Bounds: map[string]any{"byte_string_len": strLen, "alphabet": string(c08Alphabet), "injection_bases": len(bases), "injected_docs": len(inj), "double_injected_docs": len(inj2), "decoded_payload_cases": len(decCases), "ref_values": len(rv), "step_budget": c08Budget},
 	}
 }
 
